@@ -679,6 +679,7 @@ package ggql
 //@   ensures[locks-balanced]{C12,C20} held == old(held)
 
 //@ func (*Root).resolveSels
+//@   check accumulate {C06}
 //@   requires[object-present] obj != nil
 //@   requires[binding-locks-free]{C12} onlyRegistryLock(root)
 //@   decreases{C03} depth
@@ -740,6 +741,7 @@ package ggql
 //@ eleminv map[string]*Arg: v != nil
 
 //@ func (*Field).sortArgs
+//@   check accumulate {C10}
 //@   props C10
 //@   check panic {C03}
 //@   check frame {C11}
@@ -890,6 +892,7 @@ package ggql
 //@ fieldinv Arg.Default: slicelike(v) ==> is(v, []interface{})
 //@ fieldinv InputField.Default: slicelike(v) ==> is(v, []interface{})
 //@ func (*Root).replaceArgVars
+//@   check accumulate {C06}
 //@   props C04
 //@   check panic {C03}
 //@   check frame {C11}
@@ -898,6 +901,8 @@ package ggql
 //@   requires at != nil ==> ptrval(at) != 0
 //@   ensures[errs-fresh]{C06} errsFresh(ea)
 //@   ensures[no-resolver]{C04} #res == old(#res)
+//@   ensures[var-defined]{C04} is(v, Var) && !old(has(vars, as(v, Var))) ==> len(ea) > 0
+//@   ensures[var-value]{C04} is(v, Var) && (at == nil || !is(at, InCoercer)) ==> val == old(vars[as(v, Var)])
 //@   ensures[var-conforms]{C04} is(v, Var) && at != nil && is(at, InCoercer) && len(ea) == 0 ==> conformsIn(val, at)
 //@   ensures[scalar-literal-conforms]{C04} !is(v, Var) && !is(v, map[string]interface{}) && !is(v, []interface{}) && !is(v, Symbol) && at != nil && is(at, InCoercer) && len(ea) == 0 ==> conformsIn(val, at)
 //@   ensures[symbol-conforms]{C04} is(v, Symbol) && at != nil && is(at, InCoercer) && len(ea) == 0 ==> conformsIn(val, at)
@@ -919,6 +924,7 @@ package ggql
 //@           decreases len(tv) - rangeindex
 
 //@ func (*Root).formArgs
+//@   check accumulate {C06}
 //@   props C10 C04
 //@   check panic {C03}
 //@   check frame {C11}
@@ -947,6 +953,7 @@ package ggql
 //@ -- (*Root).resolveReflect: contract in verif_contracts_c12.go
 
 //@ func (*Root).addError
+//@   check accumulate {C06}
 //@   props C06
 //@   check panic {C03}
 //@   requires f != nil && err != nil
@@ -972,6 +979,7 @@ package ggql
 
 //@ spec isLeafT(x Type) bool = x != nil && !is(x, *List) && !is(x, *Object) && !is(x, *Schema) && !is(x, *Interface) && !is(x, *uuSchema) && !is(x, *NonNull) && !is(x, *Union) && is(x, OutCoercer)
 //@ func (*Root).resolve
+//@   check accumulate {C06}
 //@   requires[binding-locks-free]{C12} onlyRegistryLock(root)
 //@   decreases{C03} depth
 //@   decreases 0
@@ -1003,6 +1011,7 @@ package ggql
 //@ spec elemOk(x interface{}, bt Type) bool = x == nil || isnilv(x) || conformsOut(x, bt)
 //@ spec elemsOk(l []interface{}, n int, bt Type) bool = forall j int {l[j]} :: 0 <= j && j < n ==> elemOk(l[j], bt)
 //@ func (*Root).resolveList
+//@   check accumulate {C06}
 //@   requires[binding-locks-free]{C12} onlyRegistryLock(root)
 //@   decreases{C03} depth
 //@   decreases 1
@@ -1048,6 +1057,7 @@ package ggql
 
 //@ -- a leaf type: what resolve() hands to the type's own output coercion
 //@ func (*Root).resolveField
+//@   check accumulate {C06}
 //@   requires[object-present] obj != nil
 //@   requires[binding-locks-free]{C12} onlyRegistryLock(root)
 //@   decreases{C03} depth
@@ -1073,6 +1083,7 @@ package ggql
 //@   ensures[locks-balanced]{C12,C20} held == old(held)
 
 //@ func (*Root).resolveFieldSels
+//@   check accumulate {C06}
 //@   requires[object-present] obj != nil
 //@   requires[binding-locks-free]{C12} onlyRegistryLock(root)
 //@   decreases{C03} depth
@@ -1100,7 +1111,7 @@ package ggql
 //@   props C01
 //@   check panic {C03}
 //@   check frame {C11}
-//@   assigns fresh, root.subscriptions, H_Subscription.etype, H_Field.ConType, H_Object.meta, H_FieldDef.goField, H_FieldDef.method, H_FieldDef.args, held, #res, #registered
+//@   assigns fresh, vars[*], root.subscriptions, H_Subscription.etype, H_Field.ConType, H_Object.meta, H_FieldDef.goField, H_FieldDef.method, H_FieldDef.args, held, #res, #registered
 //@   ensures[locks-balanced]{C12,C20} held == old(held)
 //@   requires root != nil && exe != nil
 //@   requires root.schema != nil
@@ -1114,6 +1125,11 @@ package ggql
 //@   loop 0: invariant[bounds] 0 <= rangeindex+1 && rangeindex+1 <= len(op.Variables)
 //@           invariant[no-res] #res == old(#res)
 //@           invariant[no-err] err == nil
+//@           -- every variable the operation defines gets an entry: the value of this call when there is one, else the default
+//@           preserves[bound]{C04} has(opVars, vd.Name) && ((vars == nil || vars[vd.Name] == nil) ==> opVars[vd.Name] == vd.Default) && (vars != nil && vars[vd.Name] != nil && is(vd.Type, InCoercer) ==> conformsIn(opVars[vd.Name], vd.Type))
+//@           -- the caller's variables map keeps its entries (the objects it holds may be coerced in place: assigns vars[*])
+//@           invariant[vars-kept]{C11} forall k string {vars[k]} :: vars[k] == old(vars[k]) && (has(vars, k) <==> old(has(vars, k)))
+//@           use valHMap(vars)
 //@           decreases len(op.Variables) - rangeindex
 //@   -- a subscription request: every subscription the resolvers produced is handed to the registry, on every way out of the loop
 //@   loop 1: invariant[registered-so-far]{C19} forall k string {seen(1, k)} :: seen(1, k) && is(subMap[k], *Subscription) && as(subMap[k], *Subscription) != nil ==> #registered[as(subMap[k], *Subscription)] > old(#registered)[as(subMap[k], *Subscription)]
